@@ -293,6 +293,8 @@ structure St where
       `Ghost.rels` records an id only once the client itself wrote the PUBREL; a client that wrongly
       treats such a PUBREC as a refusal would otherwise be judged by its own account -/
   specRels : List Nat := []
+  /-- C18 at the state level: a PINGREQ was written on this connection and no PINGRESP has arrived since -/
+  pingOut : Bool := false
 
 /-- protocol-level bookkeeping of open QoS 2 flows, from the incoming packets only -/
 def specRelsStep (g : Ghost) (l : List Nat) (o : Obs) : List Nat :=
@@ -312,6 +314,23 @@ def specReuse (g' : Ghost) (l' : List Nat) (o : Obs) : Option (String × String)
       some ("c07-dup-id", s!"dup=reused-while-awaiting-pubcomp(protocol-level: PUBREC with a reason below 0x80 keeps the flow open) id={q.pkid} awaiting-comp={l'}")
     else none
   | _ => none
+
+/-- C18 "a silent broker is detected no later than the second interval": the keep-alive timer asks for a
+    ping while the previous PINGREQ is still unanswered — the state machine must refuse (an error ends the
+    connection), whatever else is pending (a parked collision included); it must not write another PINGREQ -/
+def pingFail (pingOut : Bool) (o : Obs) : Option (String × String) :=
+  match o.op, o.outcome with
+  | .out .pingreq, .ok _ =>
+    if pingOut then some ("c18-ping-forgiven", s!"a PINGREQ was requested while the previous one was unanswered and the state machine accepted it (col={match o.col with | some p => rPub p | none => "-"} inf={o.inf})")
+    else none
+  | _, _ => none
+
+def pingOutStep (pingOut : Bool) (o : Obs) : Bool :=
+  match o.op, o.outcome with
+  | .out .pingreq, .ok (some .pingreq) => true
+  | .inc .pingresp, _ => false
+  | .clean, .ok _ => false
+  | _, _ => pingOut
 
 def checksFor (focus : List String) : List Check :=
   (if focus.contains "C07" then [C07.checks] else []) ++
@@ -357,10 +376,12 @@ def step (wrong : Bool) (focus : List String) (σ : St) (op : List String) (out 
       let fails := if σ.failed then [] else (checksFor focus).filterMap (fun c => c σ.g σ.d io g' d')
       let fails := if σ.failed || !fails.isEmpty || !focus.contains "C07" then fails else
         (match specReuse g' rels' io with | some f => [f] | none => [])
+      let fails := if σ.failed || !fails.isEmpty || !focus.contains "C18" then fails else
+        (match pingFail σ.pingOut io with | some f => [f] | none => [])
       let dead := io.outcome == .panic
       let newDiv : Option (String × String) :=
         if same || σ.diverged then none else some (mstr, out)
-      let σ' : St := { st := some s', g := g', d := d', dead, diverged := σ.diverged || !same, owed := none, failed := σ.failed || !fails.isEmpty, specRels := rels' }
+      let σ' : St := { st := some s', g := g', d := d', dead, diverged := σ.diverged || !same, owed := none, failed := σ.failed || !fails.isEmpty, specRels := rels', pingOut := pingOutStep σ.pingOut io }
       match fails with
       | (tag, d) :: _ =>
         ({ σ' with owed := match newDiv with | some x => some x | none => σ.owed }, .monitorFail tag d)
